@@ -107,7 +107,7 @@ pub fn run_case(case: &Sx) -> (Sx, Sx, Sx) {
         obs.push(lst(vec![sym("res"), sym("ok")]));
         let specs: Vec<RuleSpec> = l[5].as_lst()[1..].iter().map(dec_rule).collect();
         let mode = l[6].as_lst()[1].as_sym().to_string();
-        let (ilim, nlim) = (l[7].as_lst()[1].as_num() as usize, l[7].as_lst()[2].as_num() as usize);
+        let ilim = l[7].as_lst()[1].as_num() as usize;
         let hookj: Option<u64> = match &l[8].as_lst()[1] { Sx::Num(j) => Some(*j), _ => None };
         let mk_rules = || {
             let mut rws: Vec<Rewrite<LV, ()>> = vec![];
@@ -122,6 +122,25 @@ pub fn run_case(case: &Sx) -> (Sx, Sx, Sx) {
         };
         let built = std::panic::catch_unwind(std::panic::AssertUnwindSafe(|| (mk_rules(), mk_rules())));
         let (rws, rws2) = match built { Ok(x) => x, Err(_) => { let e = err_of_panic(&mut extra, "rules"); obs.push(lst(vec![sym("rules"), e])); return (lst(obs), lst(extra), lst(vec![sym("trace")])); } };
+        // node limit: a number, or (exact k): EXACTLY the node count the unlimited run has after its k-th iteration (k = 0: after the
+        // history), found by a dry run on a second copy; the resolved number is reported in `extra` and written back into the case
+        let nlim: usize = match &l[7].as_lst()[2] {
+            Sx::Num(n) => *n as usize,
+            Sx::Lst(v) => {
+                let k = v[1].as_num() as usize;
+                let dry = std::panic::catch_unwind(std::panic::AssertUnwindSafe(|| {
+                    let h2 = run_history(&c, |_, _| {});
+                    let mut eg2 = h2.eg; let rws3 = mk_rules();
+                    let mut counts = vec![eg2.total_number_of_nodes()];
+                    for _ in 0..(ilim + 2) { apply_rewrites(&mut eg2, &rws3); counts.push(eg2.total_number_of_nodes()); }
+                    counts[k.min(counts.len() - 1)]
+                }));
+                let n = dry.unwrap_or(400);
+                extra.push(lst(vec![sym("nlim"), num(n as u64)]));
+                n
+            }
+            _ => 400,
+        };
         let Hist { eg, handles, .. } = h;
         let rec = Rc::new(RefCell::new(Rec { prog: eg.progress(), fp: fingerprint(&eg, &handles), trace: vec![], k: 0 }));
         let res = std::panic::catch_unwind(std::panic::AssertUnwindSafe(|| {
@@ -205,12 +224,13 @@ pub fn gen(a: &Args) -> Vec<String> {
         let mode = match rng.below(5) { 0 | 1 => "run", 2 | 3 => "eqsat", _ => "manual" };
         let ilim = rng.below(5);
         // node limits: often generous, sometimes tight enough to fire
+        let nlim_exact = mode == "run" && rng.chance(1, 3);
         let nlim = if rng.chance(1, 3) { rng.range(3, 30) } else { 400 };
         let hook = if rng.chance(1, 4) { num(rng.below(4)) } else { sym("none") };
         let mut t = vec![sym("terms")]; t.extend(terms);
         let mut o = vec![sym("ops")]; o.extend(ops);
         cases.push(lst(vec![sym("egq"), flags(), lst(t), lst(o), sym(&motif), lst(rules), lst(vec![sym("mode"), sym(mode)]),
-                            lst(vec![sym("limits"), num(ilim), num(nlim)]), lst(vec![sym("hook"), hook])]).to_string());
+                            lst(vec![sym("limits"), num(ilim), if nlim_exact { lst(vec![sym("exact"), num(rng.below(3))]) } else { num(nlim) }]), lst(vec![sym("hook"), hook])]).to_string());
     }
     cases
 }
@@ -222,7 +242,11 @@ pub fn main(a: &Args) {
             worker_loop(|l| {
                 let mut c = Sx::parse(l);
                 let (o, e, tr) = run_case(&c);
-                if let Sx::Lst(v) = &mut c { v.push(tr); }
+                let resolved: Option<u64> = match &e { Sx::Lst(ev) => ev.iter().find(|x| matches!(x, Sx::Lst(l) if !l.is_empty() && matches!(&l[0], Sx::Sym(h) if h == "nlim"))).map(|x| x.as_lst()[1].as_num()), _ => None };
+                if let Sx::Lst(v) = &mut c {
+                    if let Some(n) = resolved { if let Sx::Lst(lim) = &mut v[7] { lim[2] = num(n); } }
+                    v.push(tr);
+                }
                 vec![c.to_string(), o.to_string(), e.to_string()]
             });
         }
